@@ -220,6 +220,7 @@ namespace fastscapelib
 
         private:
             std::unique_ptr<basin_graph_type> m_basin_graph_ptr;
+            mst_method m_basin_method = mst_method::kruskal;
 
             // basin graph edges are oriented in the counter flow direction
             static constexpr std::uint8_t outflow = 0;
@@ -230,10 +231,12 @@ namespace fastscapelib
              */
             basin_graph_type& get_basin_graph(const graph_impl_type& graph_impl)
             {
-                if (!m_basin_graph_ptr)
+                // (re)create the basin graph if the basin method has been changed
+                if (!m_basin_graph_ptr || m_basin_method != this->m_op_ptr->m_basin_method)
                 {
-                    m_basin_graph_ptr = std::make_unique<basin_graph_type>(
-                        graph_impl, this->m_op_ptr->m_basin_method);
+                    m_basin_method = this->m_op_ptr->m_basin_method;
+                    m_basin_graph_ptr
+                        = std::make_unique<basin_graph_type>(graph_impl, m_basin_method);
                 }
 
                 return *m_basin_graph_ptr;
